@@ -105,6 +105,15 @@ def build_metamodel(schema, id_generator, opt=None):
     return m
 
 
+TIMEOUTS = []
+
+
+def budget(seconds):
+    """the time a call may take; once three calls of this process have run into it (the check has failed by then) the rest
+    of the runs get a tenth of it, so that a change that makes a call spin does not cost the full budget thousands of times"""
+    return seconds if len(TIMEOUTS) < 3 else max(1.0, seconds / 10)
+
+
 _QUOTED = re.compile(r"'(?:''|[^'])*'")
 
 
@@ -596,7 +605,19 @@ class World(object):
             return ev, 'none'
         if name == 'NewUnknown':
             ev.update({'c': act[1]})
-            self.m.new(act[1])
+            # an attribute of unknown type is rejected whether or not the call supplies a value for it
+            how = act[2] if len(act) > 2 else 'omitted'
+            names = [a['n'] for a in self.schema['attrs'][act[1]]]
+            odd = [j for j, a in enumerate(self.schema['attrs'][act[1]])
+                   if a['t'].upper() not in ('BOOLEAN', 'INTEGER', 'REAL', 'STRING', 'UNIQUE_ID')]
+            if how == 'positional':
+                self.m.new(act[1], *[7] * (max(odd) + 1))
+            elif how == 'keyword':
+                self.m.new(act[1], **{spell(names[j], k): 'x' for j in odd})
+            elif how == 'all':
+                self.m.find_metaclass(act[1])(*[3] * len(names))
+            else:
+                self.m.new(act[1])
             return ev, 'none'
         if name in ('SetAttr', 'DelAttr'):
             c, i, n = act[1], act[2], act[3]
@@ -649,10 +670,11 @@ def run(plan, acts, obs=None):
         w.step = k
         ev = {'op': act[0]}
         try:
-            with limit(10.0):
+            with limit(budget(10.0)):
                 ev, res = w.act(act, k, ev)
         except CallTimeout:
             res = 'Timeout'
+            TIMEOUTS.append(1)
         except (xtuml.MetaException, xtuml.ParsingException) as e:
             res = type(e).__name__
         except Exception as e:
@@ -668,13 +690,14 @@ def run(plan, acts, obs=None):
             res = res[3:]
             ev['res'] = res
         try:
-            with limit(20.0):
+            with limit(budget(20.0)):
                 ev.update(w.project())
                 qs = (obs[k] if obs and k < len(obs) else []) or []
                 ev['qr'] = [w.observe(o, k + j) for j, o in enumerate(qs)]
                 ev['q'] = qs
         except CallTimeout:
             ev['oerr'] = 'Timeout'
+            TIMEOUTS.append(1)
         except Exception as e:
             ev['oerr'] = '%s: %s' % (type(e).__name__, e)
         events.append(ev)
